@@ -46,6 +46,95 @@ def tok_classifier(pkey, nontrivial_rule):
     return classify
 
 
+def tok2_classifier(pkey, nontrivial_rule, dict_panic_is_failure=True):
+    """classifier for the second predicate group (C03 C06 C08 C12 C13) of `tok` cases"""
+    def classify(line, impl, mobs, extra):
+        flags = pflags(extra)
+        tags = []
+        toks = line.split(" IMPL ")[0].split()
+        try:
+            oi = toks.index("OPT")
+            tags.append("ignore_space=" + toks[oi + 1])
+            di = toks.index("DOPS")
+            tags.append("dops=" + toks[di + 1])
+        except ValueError:
+            pass
+        parts = impl.split(" ; ")
+        first = parts[0].split()
+        if len(first) >= 2 and first[0].startswith("D"):
+            tags.append("dictop=" + first[1])
+        elif "panic" in impl.split():
+            tags.append("impl=panic")
+        else:
+            tags.append("impl=ok")
+        if "MAPPERMODEL" in flags:
+            tags.append("mappermodel=" + flags["MAPPERMODEL"])
+        info = {"tags": tags, "nontrivial": nontrivial_rule(line, impl, mobs)}
+        if flags.get(pkey) == "0":
+            info["prop_fail"] = pkey + "-predicate"
+            info["why"] = f"property predicate {pkey} is false on the implementation's output"
+        elif pkey == "C03" and flags.get("C03A") == "0":
+            info["prop_fail"] = "astral-char-takes-entry-0-category"
+            info["why"] = "a character above U+FFFF was given the category of U+0000 instead of DEFAULT"
+            tags.append("astral=entry0")
+        elif dict_panic_is_failure and len(first) >= 2 and first[0].startswith("D") and first[1] == "panic":
+            info["prop_fail"] = "dictionary-operation-panic"
+            info["why"] = "a dictionary-level operation (map ids / load user lexicon / write-read) panicked instead of returning an error"
+        elif flags.get("MAPPERMODEL") == "0":
+            info["corr_fail"] = "the two Lean models of id mapping (Vibrato.Mapper vs DictM) disagree"
+        return info
+    return classify
+
+
+def c10_classifier():
+    def on_case(line, impl, mobs, extra):
+        tags = []
+        info = {"tags": tags, "nontrivial": True}
+        words = impl.split()
+        if "panic" in words:
+            if "panic" in mobs.split():
+                # the model predicts this panic: tokenisation needs an unknown word of a category without unk.def entry
+                info["prop_fail"] = "tokenize-panic-uncovered-category"
+                info["why"] = "accepted dictionary panics in tokenize (category without unk.def entry)"
+                tags.append("tokenize=panic-uncovered")
+            else:
+                info["prop_fail"] = "tokenize-panic"
+                info["why"] = "an accepted dictionary panicked while tokenizing"
+        else:
+            tags.append("tokenize=ok")
+        return info
+
+    def on_def(line, impl, mobs, extra):
+        flags = pflags(extra)
+        cor = flags.get("CORRUPTION", "none")
+        tags = ["file=" + cor.split(":")[0], "edit=" + cor.split(":")[-1], "build=" + impl.split()[0]]
+        info = {"tags": tags, "nontrivial": cor != "none"}
+        if impl.split()[0] in ("panic", "costpanic"):
+            info["prop_fail"] = "builder-panic"
+            info["why"] = "a dictionary builder panicked on: " + cor
+        elif impl.split()[0] != mobs.split()[0] or (impl.startswith("ok") and impl != mobs):
+            info["corr_fail"] = "builder outcome differs from the model"
+        return info
+    on_case.on_def = on_def
+    return on_case
+
+
+def has_dops(line, impl, mobs):
+    return " DOPS 0 " not in line and has_tokens(line, impl, mobs)
+
+
+def has_lattice_choice(line, impl, mobs):
+    return lattice_paths_ge2(line, impl, mobs)
+
+
+def respaced_family(line, impl, mobs):
+    return line.count(" R ") >= 3 and has_tokens(line, impl, mobs)
+
+
+def has_probs(line, impl, mobs):
+    return " probs " in impl and " counts " in impl
+
+
 def lattice_paths_ge2(line, impl, mobs):
     """non-trivial for C02: the lattice offers a choice, i.e. some boundary holds >= 2 nodes"""
     for part in impl.split(" ; "):
@@ -199,6 +288,72 @@ LATTICE_TB = [
 ]
 
 PROPS = {
+    "C03": {
+        "modules": ["Vibrato.Proofs.Tokenizer", "Vibrato.Proofs.TokenizerEnv"],
+        "theorems": ["Vibrato.genUnk_eq", "Vibrato.mem_unkLengths", "Vibrato.unkLengths_bounds", "Vibrato.lexMatches_spec",
+                     "Vibrato.lexMatches_complete", "Vibrato.scanEntries_mem", "Vibrato.groupables_bounds",
+                     "Vibrato.candsAt_spec"],
+        "streams": tok_streams("c01", 600, 20000, tok2_classifier("C03", has_lattice_choice)),
+        "rule": "random char.def layouts (<= 6 categories, overlapping ranges, multi-category characters, every invoke/group/"
+                "length combination), 1-3 unk.def entries per category, max_grouping_len in {0,1,2,3,24}, lexicons with homographs "
+                "and nested prefixes; the candidate projection (word id, lex type, start node, start word, ids) of every boundary of "
+                "the dumped lattice is compared as a multiset with the model's candidates; non-trivial = some boundary has >= 2 nodes",
+        "trusted_base": LATTICE_TB,
+        "assumptions": ["characters above U+FFFF read table entry 0 (finding F13), mirrored by the model"],
+    },
+    "C06": {
+        "modules": ["Vibrato.Props.C06map"],
+        "theorems": ["Vibrato.Mapper.parse_ok_iff", "Vibrato.Mapper.parse_err_iff", "Vibrato.Mapper.parse_bijection",
+                     "Vibrato.Mapper.matrix_cost_map", "Vibrato.Mapper.raw_cost_map", "Vibrato.Mapper.dual_cost_map",
+                     "Vibrato.Mapper.conn_cost_map_fn", "Vibrato.Mapper.mapIds_total", "Vibrato.Mapper.map_compose",
+                     "Vibrato.Mapper.unfixed_wrong_length_panics", "Vibrato.Mapper.unfixed_second_map_mistranslates"],
+        "streams": tok_streams("c06", 300, 10000, tok2_classifier("C06", has_dops)),
+        "rule": "random histories of {map (valid permutations and malformed iterators: 0, duplicate, omission, short, long), "
+                "load user lexicon (incl. out-of-range ids), clear, write/read} followed by tokenization; tokens must equal those of "
+                "the unmapped dictionary with the same user lexicon up to ids; non-trivial = at least one dictionary operation and tokens",
+        "trusted_base": LATTICE_TB + ["raw/dual connectors enter the tokenisation model through their dumped cost table (their own model: C07)"],
+        "assumptions": [],
+    },
+    "C08": {
+        "modules": ["Vibrato.Props.C06map"],
+        "theorems": ["Vibrato.Mapper.loadUserChecked_total", "Vibrato.Mapper.loadUser_out_of_range_panics_after_map",
+                     "Vibrato.Mapper.map_compose"],
+        "streams": tok_streams("c08", 300, 8000, tok2_classifier("C08", has_dops)),
+        "rule": "user CSVs with homographs of system words, longer/shorter overlapping surfaces, out-of-range ids; load/replace/clear "
+                "histories; the implementation's optimal cost must equal that of the system lexicon extended by the same rows",
+        "trusted_base": LATTICE_TB,
+        "assumptions": [],
+    },
+    "C10": {
+        "modules": ["Vibrato.Model.Dict"],
+        "theorems": [],
+        "streams": tok_streams("c10", 1500, 60000, c10_classifier()),
+        "rule": "valid definition files from the structured generator + one corruption per case (16 kinds: empty file, byte "
+                "delete/insert/replace, cut, drop/duplicate field, swapped lines, out-of-range numbers, CRLF, BOM, missing final newline, "
+                "trailing blank lines, undefined names, targeted char.def lines, many categories, random bytes); accepted dictionaries are "
+                "probed with 3 sentences each; non-trivial = a corrupted file",
+        "trusted_base": LATTICE_TB,
+        "assumptions": [],
+    },
+    "C12": {
+        "modules": ["Vibrato.Props.C01"],
+        "theorems": ["Vibrato.gaps_start_with_space"],
+        "streams": tok_streams("c12", 400, 12000, tok2_classifier("C12", respaced_family)),
+        "rule": "dictionaries meeting the precondition (SPACE characters belong to SPACE alone, no surface contains one); each case "
+                "is a family: the same segments re-spaced 3-6 ways (run lengths 1-3, two different SPACE characters, optional leading/"
+                "trailing runs); all members must give the same id-free token observation",
+        "trusted_base": LATTICE_TB,
+        "assumptions": [],
+    },
+    "C13": {
+        "modules": ["Vibrato.Props.C13probs"],
+        "theorems": ["Vibrato.Mapper.probs_perm_sorted", "Vibrato.Mapper.reorder_accepted_by_map", "Vibrato.Mapper.reorder_then_map"],
+        "streams": tok_streams("c13", 300, 8000, tok2_classifier("C13", has_probs)),
+        "rule": "histories of reset/tokenize/update_connid_counts incl. empty lines and repeats, with and without ignore_space; raw "
+                "counts compared with the model after every update; the id orderings must be permutations sorted by count then id",
+        "trusted_base": LATTICE_TB + ["f64 ordering of cnt/sum assumed monotone in cnt (counts < 2^53)"],
+        "assumptions": [],
+    },
     "C11": {
         "modules": ["Vibrato.Props.C11"],
         "theorems": ["Vibrato.C11.read_cell_delim", "Vibrato.C11.read_cell_term", "Vibrato.C11.read_cell_eof",
